@@ -152,16 +152,25 @@ def rule_stmt(b):
         scratch_slots = [spill] if spill else []
         T = ty_decl("T")
         types = [decl("T", [("K0", []), ("K1", ["Ext", "Prd"]), ("K2", ["Prd", "Ext", "Ext", "Prd"])]),
-                 decl("U", [("D0", ["Ext"])])]
+                 decl("U", [("D0", ["Ext"])]),
+                 decl("E", [("E0", []), ("E1", [])])]       # an enumeration: a data type all of whose constructors are nullary
+        TE = ty_decl("E")
         XT = {"K0": [], "K1": ["Ext", "Prd"], "K2": ["Prd", "Ext", "Ext", "Prd"]}
         heapreg, freereg = mem._reg_const(tg, "HEAP"), mem._reg_const(tg, "FREE")
 
         def kept_ctx(r):
             return [binding(i, "Prd" if i % 2 else "Ext") for i in range(r)]
 
-        def path_check(codes, start, nvars, spec, defined, dont_care, want_ctx, what):
-            """follow every path from `start` to the next MARK; compare with the reference; returns problems"""
+        def path_check(codes, start, nvars, spec, defined, dont_care, want_ctx, what, null_at=()):
+            """follow every path from `start` to the next MARK; compare with the reference; returns problems.  null_at: locations that
+            hold the null pointer when the statement starts (the first temporary of a value without fields)"""
             m0, init = mem._init(tg, nvars)
+            for l_ in null_at:
+                init[l_] = isa.const(0)
+                if l_[0] == "reg":
+                    m0.regs[l_[1]] = isa.const(0)
+                else:
+                    m0.mem[l_[1]] = isa.const(0)
             paths = isa.explore(ctx, arch, codes, m0.clone(), max_paths=200, start=start)
             if not paths:
                 return ["no path"]
@@ -530,10 +539,13 @@ def rule_stmt(b):
         sizes = [3] if b == "rv64" else [3, nreg + 1]
         # rearrangements of the last three variables (a: ext, p, q: prd): new position <- old variable
         PATTERNS = [("a", "p", "q"), ("p", "a", "q"), ("q", "a", "p"), ("p", "q", "a"), ("a", "p", "p"), ("p", "p", "a", "q"), ("a", "q"), ("q", "a", "a"),
-                    ("a", "p", "q", "p", "p"), ("p",), ("q", "p")]
+                    ("a", "p", "q", "p", "p"), ("p",), ("q", "p"),
+                    # e: a variable of an enumeration type - an object variable like p and q (two temporaries, the first one a null pointer)
+                    ("e", "a", "p"), ("a", "e"), ("e", "e", "q"), ("q", "e", "a", "p")]
         for sz in sizes:
             base = sz - 3
-            old = {"a": (base, "Ext"), "p": (base + 1, "Prd"), "q": (base + 2, "Cns")}
+            old = {"a": (base, "Ext"), "p": (base + 1, "Prd"), "q": (base + 2, "Cns"), "e": (base + 3, "Prd")}
+            tyof = {"a": Adt(AX + "types::Ty", "I64", {}), "p": T, "q": T, "e": TE}
             for pat in PATTERNS:
                 if b == "rv64" and base + len(pat) > nreg:
                     continue
@@ -546,22 +558,23 @@ def rule_stmt(b):
                     nid = oi if nm not in seen else 800 + j
                     seen.add(nm)
                     nb = Adt(AX + "context::ContextBinding", "ContextBinding", {"var": ident(nm, nid), "chi": Adt(AX + "context::Chirality", chi, {}),
-                                                                                "ty": Adt(AX + "types::Ty", "I64", {}) if chi == "Ext" else T})
+                                                                                "ty": tyof[nm]})
                     tail.append((nb, ident(nm, oi)))
                 pairs = head + tail
                 stmt = Adt(adt, "Substitute", {"rearrange": Vec([Adt(None, None, {"0": x, "1": y}) for x, y in pairs]), "next": Sym("next")})
                 octx = [binding(i, "Prd" if i % 2 else "Ext") for i in range(base)] + [
                     Adt(AX + "context::ContextBinding", "ContextBinding", {"var": ident(nm, oi), "chi": Adt(AX + "context::Chirality", chi, {}),
-                                                                            "ty": Adt(AX + "types::Ty", "I64", {}) if chi == "Ext" else T}) for nm, (oi, chi) in old.items()]
+                                                                            "ty": tyof[nm]}) for nm, (oi, chi) in old.items()]
                 codes = fold_stmt(ctx, tg, key, stmt, types, tctx(octx))
-                what = "substitute (%s) := (a, p, q) behind %d unchanged variables" % (", ".join(pat), base)
+                what = "substitute (%s) := (a, p, q, e) behind %d unchanged variables" % (", ".join(pat), base)
                 if isinstance(codes, str):
                     bad.append(what + ": " + codes)
                     continue
                 counts = {nm: pat.count(nm) for nm in old}
 
-                def spec(R, init, ref_m, pat=pat, base=base, counts=counts, old=old):
-                    for nm, (oi, chi) in old.items():
+                def spec(R, init, ref_m, pat=pat, base=base, counts=counts, old=old, order=None):
+                    for nm in (order or list(old)):
+                        oi, chi = old[nm]
                         if chi == "Ext":
                             continue
                         v = init[mem.loc(tg, "Fst", oi)]
@@ -574,12 +587,23 @@ def rule_stmt(b):
                         mem.wr(ref_m, mem.loc(tg, "Snd", base + j), init[mem.loc(tg, "Snd", oi)])
                         if chi != "Ext":
                             mem.wr(ref_m, mem.loc(tg, "Fst", base + j), init[mem.loc(tg, "Fst", oi)])
-                nv = base + max(len(pat), 3)
+                nv = base + max(len(pat), len(old))
                 defined = [mem.loc(tg, "Snd", base + j) for j in range(len(pat))] + [mem.loc(tg, "Fst", base + j) for j, nm in enumerate(pat) if old[nm][1] != "Ext"]
-                dont = [mem.loc(tg, num, base + j) for j in range(max(len(pat), 3)) for num in ("Fst", "Snd")]
+                dont = [mem.loc(tg, num, base + j) for j in range(max(len(pat), len(old))) for num in ("Fst", "Snd")]
                 dont = [l for l in dont if l not in defined]
                 want = [(i, "Prd" if i % 2 else "Ext") for i in range(base)] + [(x.fields["var"].fields["id"], x.fields["chi"].variant) for x, _ in tail]
-                pr = path_check(codes, 0, nv, spec, defined, dont, want, what)
+                # the order in which several dropped variables are erased is the code's choice (it decides the order of the free list,
+                # nothing a program can observe): any order is accepted
+                dropped = [nm for nm, (oi, chi) in old.items() if chi != "Ext" and counts[nm] == 0]
+                rest = [nm for nm in old if nm not in dropped]
+                pr = None
+                for perm in itertools.permutations(dropped):
+                    order = rest + list(perm)
+                    # a value of an enumeration type has no fields: its first temporary is the null pointer
+                    pr = path_check(codes, 0, nv, lambda R, init, ref_m, order=order: spec(R, init, ref_m, order=order), defined, dont, want, what,
+                                    null_at=[mem.loc(tg, "Fst", old["e"][0])])
+                    if not pr:
+                        break
                 if pr:
                     bad.append(pr[0])
         report(b + ":substitute", adt, bad, n)
